@@ -30,7 +30,8 @@ func (b *verifC18Body) Close() error               { return nil }
 func verifHarness_C18_shortcuts() {
 	api := verifChoice("api", 9) // Bind, AutoBind, ShouldBind(JSON), ShouldBind(XML), MustBind(JSON), BindJSON, BindXML, BindForm, Validate
 	ctKind := verifChoice("contentType", 4)
-	ct := []string{"application/json", "text/xml; charset=utf-8", "application/x-www-form-urlencoded", "text/plain"}[ctKind]
+	// (parameters keep their spelling: a multipart boundary, for one, is case-sensitive)
+	ct := []string{"application/json; Charset=UTF-8", "text/xml; charset=utf-8", "application/x-www-form-urlencoded", "text/plain; Format=Flowed"}[ctKind]
 	if api == 7 {
 		// BindForm reads what net/http's ParseForm produces, which takes a body only with this type
 		verifAssume(ctKind == 2)
@@ -138,6 +139,7 @@ func verifHarness_C18_shortcuts() {
 	verifEventsReset()
 	k := verifCatch(func() { r.ServeHTTP(verifNewWriter(), req) })
 
+	verifAssert(len(req.Header["Content-Type"]) == 1 && req.Header["Content-Type"][0] == ct, "binding leaves the request's Content-Type header as it was sent")
 	shouldFail := format == "" && api != 8
 	if format != "" {
 		shouldFail = decodeFails
